@@ -433,7 +433,82 @@ def run(ctx: RuleContext, p: Program) -> None:
     ctx.try_rule(rule_own_idx, p, 'OWN-IDX')
     ctx.try_rule(rule_handler_form, p, 'HANDLER-FORM')
     ctx.try_rule(rule_view_read, p, 'VIEW-READ')
+    ctx.try_rule(rule_view_write, p, 'VIEW-WRITE')
     ctx.not_decided += ['Python list semantics for every index / slice of each view', 'ordered-dict / first-match semantics of '
                         'the meta mapping view', 'MutableSequence mixin methods inherited from collections.abc']
     ctx.assumptions += ['bisect_left on a sorted list of distinct positions', 'range_from_index returns a range inside [0, n] '
                         '(step-1 use guarded by the caller)', 'collections.abc mixin methods are built from the primitives checked here']
+
+
+def rule_view_write(ctx: RuleContext, p: Program, rid: str) -> None:
+    ctx.rule(rid, 'writes through a filtered/converted view address the raw list through _raw_indexes: insert maps an in-range index '
+                  'to _raw_indexes[index], an index >= len to the end of the raw list and an index < -len to 0; pop checks '
+                  '-len <= index < len first; delete/clear/discard hand raw positions to drop_many; drop_many deletes maximal runs of '
+                  'consecutive positions [r[-1], r[0] + 1) from the highest down and refilters items by position')
+    vw = p.cls('RepeatedValueWrapper', 'models.internal.value_properties')
+    ins = p.method(vw, 'insert', inherited=False)
+    ix = ins.params[1]
+    from ..walker import Walker
+    got: dict[str, str] = {}
+    chain = [s for s in ast.walk(ins.node) if isinstance(s, ast.If)]
+    def cond_key(t: ast.AST) -> str:
+        return norm(t)
+    for s in chain:
+        for body, key in ((s.body, cond_key(s.test)), (s.orelse, 'else:' + cond_key(s.test))):
+            for a in body:
+                if isinstance(a, ast.Assign) and norm(a.targets[0]) == 'raw_index':
+                    got[key] = norm(a.value)
+    want_vals = {'len(self._raw_wrapper)', '0', f'self._raw_indexes[{ix}]'}
+    conds = ' ; '.join(sorted(got))
+    ok = set(got.values()) == want_vals and any(v == 'len(self._raw_wrapper)' and 'len(self._raw_indexes)' in k and not k.startswith('else') for k, v in got.items()) \
+        and any(v == '0' and '-len(self._raw_indexes)' in k for k, v in got.items())
+    call = [c for c in ast.walk(ins.node) if isinstance(c, ast.Call) and norm(c.func) == 'self._raw_wrapper.insert']
+    ok = ok and len(call) == 1 and [norm(a) for a in call[0].args] == ['raw_index', f'self._to_raw_type({ins.params[2]})']
+    ctx.check(ok, rid, 'models.internal.value_properties:RepeatedValueWrapper.insert', f'{got}', f'insert maps its index as {got}; expected >= len -> end of the '
+              f'raw list, < -len -> 0, else _raw_indexes[index]', ins.where, note=conds[:150])
+    pop = p.method(vw, 'pop', inherited=False)
+    first = stmts_no_doc(pop.node.body)[0]
+    ok = isinstance(first, ast.If) and any(isinstance(x, ast.Raise) for x in first.body) and \
+        norm(first.test) in (f'not -len(self._raw_indexes) <= {pop.params[1]} < len(self._raw_indexes)',)
+    ok = ok and any(isinstance(r, ast.Return) and norm(r.value) == f'self._from_raw_type(self._raw_wrapper.pop(self._raw_indexes[{pop.params[1]}]))'
+                    or isinstance(r, ast.Return) and norm(r.value) == 'self._from_raw_type(self._raw_wrapper.pop(raw_index))' for r in ast.walk(pop.node))
+    ctx.check(ok, rid, 'models.internal.value_properties:RepeatedValueWrapper.pop', 'range check, then raw pop at _raw_indexes[index]',
+              'pop does not check -len <= index < len first and then pop the raw item at _raw_indexes[index]', pop.where)
+    de = p.method(vw, '__delitem__', inherited=False)
+    dcalls = [c for c in ast.walk(de.node) if isinstance(c, ast.Call) and norm(c.func) == 'self._raw_wrapper.drop_many']
+    calls = [norm(c) for c in dcalls]
+    ok = False
+    if len(dcalls) == 1 and dcalls[0].args and isinstance(dcalls[0].args[0], (ast.GeneratorExp, ast.ListComp)):
+        ge = dcalls[0].args[0]
+        g = ge.generators[0]
+        src = g.iter
+        if isinstance(src, ast.Name):
+            a = [x.value for x in ast.walk(de.node) if isinstance(x, ast.Assign) and norm(x.targets[0]) == src.id]
+            src = a[0] if len(a) == 1 else src
+        ok = norm(src) == f'indexes.range_from_index({de.params[1]}, len(self._raw_indexes))' and not g.ifs \
+            and norm(ge.elt) == f'self._raw_indexes[{norm(g.target)}]'
+    ctx.check(ok, rid, 'models.internal.value_properties:RepeatedValueWrapper.__delitem__', calls[0][:100] if calls else '',
+              '__delitem__ does not drop exactly the raw positions _raw_indexes[i] for i in the normalised range', de.where)
+    cl = p.method(vw, 'clear', inherited=False)
+    calls = [norm(c) for c in ast.walk(cl.node) if isinstance(c, ast.Call)]
+    ctx.check(calls == ['self._raw_wrapper.drop_many(self._raw_indexes)'], rid, 'models.internal.value_properties:RepeatedValueWrapper.clear', f'{calls}',
+              'clear does not drop exactly the view\'s own raw positions', cl.where)
+    nw = p.cls('RepeatedNodeWrapper', 'models.internal.properties')
+    dm = p.method(nw, 'drop_many', inherited=False)
+    src = norm(dm.node)
+    prm = dm.params[1]
+    checks = {
+        'sorted descending': f'{prm} = sorted({prm}, reverse=True)' in src,
+        'consecutive runs via groupby(i + counter)': f'itertools.groupby({prm}, key=lambda i: i + next(count))' in src and 'count = itertools.count()' in src,
+        'run [r[-1], r[0] + 1)': 'self._del_tokens(r[-1], r[0] + 1)' in src,
+        'items refiltered by position': f'self._repeated.items[:] = (item for i, item in enumerate(self._repeated.items) if i not in {prm})' in src,
+    }
+    bad = [k for k, v in checks.items() if not v]
+    ctx.check(not bad, rid, 'models.internal.properties:RepeatedNodeWrapper.drop_many', f'{bad or "ok"}',
+              f'drop_many lacks: {bad}', dm.where, note='descending runs of consecutive positions; refilter by position')
+    # token side happens before the item list changes (positions are still valid)
+    order = [('tokens' if 'self._del_tokens' in norm(s) else 'items' if 'self._repeated.items[:]' in norm(s) else 'notify' if '_notify' in norm(s) else '')
+             for s in stmts_no_doc(dm.node.body)]
+    order = [o for o in order if o]
+    ctx.check(order == ['tokens', 'items', 'notify'], rid, 'models.internal.properties:RepeatedNodeWrapper.drop_many: order', f'{order}',
+              f'drop_many does {order}; token ranges must be deleted while the item positions are still valid, then items, then notify', dm.where)
